@@ -290,7 +290,7 @@ func (in *Interp) violate(label, detail string) {
 }
 
 func (in *Interp) makeSample(h *Harness, shape int, model map[string]uint64) *PathSample {
-	s := &PathSample{Harness: h.Name, Shape: shape, Assign: model}
+	s := &PathSample{Harness: h.Name, Shape: shape, Assign: model, Threaded: len(in.threads) > 1}
 	memo := map[*Term]uint64{}
 	for _, o := range in.observes {
 		s.Observes = append(s.Observes, o.label+"="+in.fmtObs(o.val, model, memo))
